@@ -33,6 +33,14 @@ CHECKS = {
         ref="DESIGN.md section 3 C14"),
 }
 
+CHECKS["C19"] = dict(
+    technique="must-event analysis on normal and exceptional exits (event set on every exit, wait/cancel/wait order), call-graph reachability of handle releases, resolved receiver types for close() coverage",
+    text="Decides the structural core of 'nothing left running': every awaited asyncio.Event is set on every exit of its setter (task bodies: "
+         "also when any await raises), stop() orders wait-started / cancel / wait-exited, every stored task, timer or thread handle has a "
+         "cancel/join/await reachable from its owner's stop(), close() stops an object of every stoppable class and finishes its state update. "
+         "It does not decide bounded-time completion under every interleaving or the absence of events after close.",
+    ref="DESIGN.md section 3 C19")
+
 NOT_APPLICABLE = {
     "C06": "every clause quantifies over loss schedules, timers and the interleaving of several channels' fragments across heap queues; no "
            "clause has a structural necessary condition that is not merely a description of one implementation (DESIGN.md section 5). Its "
